@@ -53,6 +53,12 @@ type c37Conn struct {
 	work    *c37Work     // the running query / operation
 	rctx    *sql.Context // what Begin* returned, to be passed to End*
 	orphan  *sql.Context // query context whose connection was removed before EndQuery
+	// the context of the last query on this connection id that is over (ended, or cut off by RemoveConnection):
+	// a late EndQuery with it (the engine ends every query twice: TrackedRowIter.done and the handler's defer)
+	// must be a no-op whatever runs on the connection id by then
+	stale    *sql.Context
+	stalePid uint64
+	hasStale bool
 }
 
 type c37Model struct {
@@ -101,6 +107,7 @@ const (
 	c37Kill
 	c37RemoveConnection
 	c37EndQuery
+	c37EndStale
 	c37Kinds
 )
 
@@ -126,6 +133,9 @@ func (m *c37Model) allowed(s c37Step) bool {
 		return cn.running == c37Query || cn.orphan != nil
 	case c37EndOperation:
 		return cn.running == c37Op
+	case c37EndStale:
+		// pids are unique per query in the server: a stale context whose pid is in use again is not a real history
+		return cn.hasStale && !m.pidInUse(cn.stalePid)
 	}
 	return true // BeginOperation (fails when unregistered or busy), Kill, RemoveConnection: any time
 }
@@ -206,6 +216,7 @@ func (w *c37World) apply(id string, s c37Step) {
 		if cn.running == c37Query {
 			w.pl.EndQuery(cn.rctx)
 			cn.work.want = true
+			cn.stale, cn.stalePid, cn.hasStale = cn.rctx, cn.pid, true
 			cn.running, cn.query, cn.pid, cn.work, cn.rctx = c37None, "", 0, nil, nil
 		} else {
 			// the deferred EndQuery of a query whose connection is already gone
@@ -224,6 +235,8 @@ func (w *c37World) apply(id string, s c37Step) {
 		w.pl.EndOperation(cn.rctx)
 		cn.work.want = true
 		cn.running, cn.work, cn.rctx = c37None, nil, nil
+	case c37EndStale:
+		w.pl.EndQuery(cn.stale) // no effect: the model does not move
 	case c37Kill:
 		w.pl.Kill(connID)
 		if cn.state != c37Absent && cn.running != c37None {
@@ -236,10 +249,12 @@ func (w *c37World) apply(id string, s c37Step) {
 				cn.work.want = true
 			}
 			orphan := cn.orphan
+			stale, stalePid, hasStale := cn.stale, cn.stalePid, cn.hasStale
 			if cn.running == c37Query {
 				orphan = cn.rctx
+				stale, stalePid, hasStale = cn.rctx, cn.pid, true
 			}
-			*cn = c37Conn{orphan: orphan}
+			*cn = c37Conn{orphan: orphan, stale: stale, stalePid: stalePid, hasStale: hasStale}
 		}
 	}
 }
@@ -293,9 +308,18 @@ func (w *c37World) check(id string) {
 
 // c37Run: every protocol-conforming history of n steps; the longest ones only
 // from the richest initial states.
-func c37Run(id string, n, longest int) {
+func c37Run(id string, n, longest int) { c37RunFrom(id, n, longest, nil) }
+
+// c37RunFrom: prefix (if given) is a fixed beginning of the history, played from
+// the state (connection 1 idle, connection 2 idle or absent).
+func c37RunFrom(id string, n, longest int, prefix []c37Step) {
 	// initial state of the two connections: absent, connecting or idle
-	init := [2]int{nd.Pick("init0", 3), nd.Pick("init1", 3)}
+	var init [2]int
+	if prefix == nil {
+		init = [2]int{nd.Pick("init0", 3), nd.Pick("init1", 3)}
+	} else {
+		init = [2]int{c37Idle, 2 * nd.Pick("init1", 2)}
+	}
 	// the longest histories only from the starts in which the most can happen:
 	// connection 1 idle, connection 2 idle or absent
 	rich := init[0] == c37Idle && init[1] != c37Connecting
@@ -308,6 +332,12 @@ func c37Run(id string, n, longest int) {
 	var scratch c37Model
 	for c, st := range init {
 		scratch.conn[c].state = st
+	}
+	for _, s := range prefix {
+		if !scratch.allowed(s) {
+			nd.Assume(false)
+		}
+		scratch.simulate(s)
 	}
 	for k := range steps {
 		tag := string(rune('0' + k))
@@ -331,6 +361,10 @@ func c37Run(id string, n, longest int) {
 		}
 	}
 	w.check(id)
+	for _, s := range prefix {
+		w.apply(id, s)
+		w.check(id)
+	}
 	for _, s := range steps {
 		w.apply(id, s)
 		w.check(id)
@@ -367,6 +401,7 @@ func (m *c37Model) simulate(s c37Step) {
 		}
 	case c37EndQuery:
 		if cn.running == c37Query {
+			cn.stalePid, cn.hasStale = cn.pid, true
 			cn.running, cn.pid = c37None, 0
 		} else {
 			cn.orphan = nil
@@ -380,10 +415,12 @@ func (m *c37Model) simulate(s c37Step) {
 	case c37RemoveConnection:
 		if cn.state != c37Absent {
 			orphan := cn.orphan
+			stalePid, hasStale := cn.stalePid, cn.hasStale
 			if cn.running == c37Query {
 				orphan = &sql.Context{}
+				stalePid, hasStale = cn.pid, true
 			}
-			*cn = c37Conn{orphan: orphan}
+			*cn = c37Conn{orphan: orphan, stalePid: stalePid, hasStale: hasStale}
 		}
 	}
 }
@@ -397,6 +434,20 @@ func (m *c37Model) simulate(s c37Step) {
 func VerifC37Sequential() {
 	longest := nd.Bound(3, 4)
 	c37Run("c37.seq", nd.IntRange("n", 1, longest), longest)
+}
+
+// VerifC37AfterAQuery: the same from a connection that has already run and
+// ended one query (pid 7): 1..2 (thorough 3) further operations, among them the
+// late EndQuery of that finished query — which must not touch whatever the
+// connection id is doing by then (a new query, an operation, nothing).
+// (Added after the seeded change /verif/seeded/C37-endquery-pid-guard — EndQuery
+// no longer matching the pid — was missed: the histories of VerifC37Sequential
+// are too short to begin, end, begin again and end late.)
+func VerifC37AfterAQuery() {
+	longest := nd.Bound(2, 3)
+	c37RunFrom("c37.after", nd.IntRange("n", 1, longest), longest+1, []c37Step{
+		{kind: c37BeginQuery, c: 0, pid: 7}, {kind: c37EndQuery, c: 0},
+	})
 }
 
 // VerifC37Concurrent: the lock discipline. Connection 1 is idle, connection 2
